@@ -159,4 +159,6 @@ def run(ctx):
     rep.floor('R16.3', 'secret-flow obligations', n_flow, ns * 100)
     from rules import profile
     profile.check(ctx, rep, 'R16.P', ['creg_start', 'clog_start', 'creg_finish', 'clog_finish', 'slog_start'])
+    from rules import lclone
+    lclone.check(ctx, rep, 'R16.C')
     return rep
